@@ -204,8 +204,9 @@ PROPS["C13"] = {
     "level": "exploration",
     "technique": "runtime metamorphic monitor on the real PublicInput::get_hash: digests of every single-field change, main-page insertion/deletion/duplication/transposition, segment and page-header edits collected into one collision set per seed input; digest model cross-check; recorded Stone proofs: the digest reproduces the prover's first challenges (transcript hook)",
     "rule": "seeds = honest public inputs of the build (plus the shipped dynamic-layout one in every build) + 24 (quick) / 200 (thorough) random ones (0..=600 cells, 0..=12 segments, 0..=4 page headers, random dynamic parameters for the dynamic layout); variants = every scalar leaf +1 (+2 thorough), friendly-layer count (stone6), main-page insertion / duplication / deletion / adjacent transposition / address-value exchange at every position (<= 40 sampled positions per seed in quick, <= 200 in thorough; on pages above 120 cells thorough draws ~240 of the page's leaves), the friendly-layer count at 0, 1, p-1, 2^8..2^250 and original + 2^8..2^250 (stone6; each also against the digest model), compensating changes, segment / header insertion / deletion / transposition, padding and range-check exchanges, the same object edited in place and hashed again (6 edits per seed, compared with a fresh equal object and the digest model); any two different inputs with equal digests violate; a variant is non-trivial when the changed field is in the statement",
-    "legs": [full("pihash", "pihash", q=FULL_SHIPPED, t=FULL_SHIPPED, timeout={"quick": 1200, "thorough": 5400}), full("recorded", "recorded", t=FULL_SHIPPED)],
-    "required_counters": ["changed.main_page[*].address", "changed.segments[*].begin_addr", "equal_copies_checked", "recorded_transcripts_equal"],
+    "legs": [full("pihash", "pihash", q=FULL_SHIPPED, t=FULL_SHIPPED, timeout={"quick": 1200, "thorough": 5400}), full("recorded", "recorded", t=FULL_SHIPPED),
+             {"name": "pihash-single-layout", "kind": "nostd", "cmd": "pistatic", "builds": {"quick": FULL_STONES, "thorough": FULL_STONES}}],
+    "required_counters": ["static.none_vs_some", "changed.main_page[*].address", "changed.segments[*].begin_addr", "equal_copies_checked", "recorded_transcripts_equal"],
     "assumptions": TRUSTED[:1] + ["collision-freeness is observed on the enumerated neighbourhoods, not proved for the hash functions"],
 }
 
